@@ -191,6 +191,9 @@ func TestLeakKill(t *testing.T) {
 // A goroutine that is still alive when the root returns must not get anything done afterwards,
 // not even through its deferred calls (the process has exited).
 func TestNoEffectsAfterRootReturns(t *testing.T) {
+	if RaceBuild {
+		t.Skip("the probe variable is deliberately shared without synchronisation")
+	}
 	lateSeen := false
 	for seed := 0; seed < 300; seed++ {
 		ended, late := false, 0
